@@ -32,7 +32,7 @@ def count_sites(s, e):
 def build_module(e, o5, t, o3, rng, backbone=8):
     """site . N^a . o5 . t . o3 . N^a . rc(site) . backbone   (exactly one forward and one reverse site)"""
     site, a, k = enzyme_geometry(e)
-    for _ in range(300):
+    for _ in range(1500):
         s = site + clean(rng, a, e) + o5 + t + o3 + clean(rng, a, e) + gen.rc(site) + clean(rng, backbone, e)
         if count_sites(s, e) == (1, 1):
             return s
@@ -43,7 +43,7 @@ def build_vector(e, vstart, vend, rng, placeholder=6, backbone=10):
     """N . vend . N^a . rc(site) . placeholder . site . N^a . vstart . N . backbone
     kept fragment (target) = vstart . N . backbone . N  (the stretch from the second cut round to the first)"""
     site, a, k = enzyme_geometry(e)
-    for _ in range(300):
+    for _ in range(1500):
         n1, n2 = clean(rng, 1, e), clean(rng, 1, e)
         bb = clean(rng, backbone, e)
         s = n1 + vend + clean(rng, a, e) + gen.rc(site) + clean(rng, placeholder, e) + site + clean(rng, a, e) + vstart + n2 + bb
